@@ -357,6 +357,9 @@ func RunCase(c Case) (res stats.Result) {
 			r.finish()
 		}
 	}()
+	if r.obs.harness != "" {
+		panic("harness: " + r.obs.harness)
+	}
 	if res.Violation == "" {
 		if v := r.obs.finalCheck(); v != "" {
 			res.Violation = v
